@@ -27,7 +27,7 @@ OPEN = [
      'transOpers raise AttributeError - foreign exceptions escape compile(); not repaired: seven sibling actions '
      '(Entry, Index, Object, Notification, VarType, MandatoryGroup, ComplianceGroup) need a semantic decision',
      'compile() of `e OBJECT-TYPE ... AUGMENTS { ifEntry(1) } ::= { root 1 }` raises KeyError("ifEntry")'),
-    ('C05', 'C05.R8', 'genDefVal/return-shape outDict',
+    ('C05', 'C05.R8', 'genDefVal/return-shape bare-record',
      'F23: a BITS DEFVAL is returned as the bare record, not wrapped in {"default": ...}; the pysnmp template then '
      'fails (attribute default missing) and its bits branch reads a path that cannot exist; not repaired: needs '
      'a redesign of the bits default in both the IR and the template',
@@ -44,16 +44,16 @@ OPEN = [
      '`object`, returns it where a pair is unpacked, and the fake column symbols are never registered; an SMIv1 '
      'module with a type-valued INDEX fails with "No generated code for symbol pysmiFakeCol1000"',
      'SMIv1 row with INDEX { INTEGER } -> PySmiCodegenError'),
-    ('C06', 'C06.R1', 'IntermediateCodeGen.genDefVal/symbolTable[m]<-defval',
+    ('C06', 'C06.R1', 'IntermediateCodeGen.genDefVal/symbolTable[m]<-raw-label',
      'F25: a DEFVAL label is looked up as written (with hyphens) in tables keyed by normalised names, so a valid `DEFVAL { d-root }` on an OBJECT IDENTIFIER object is rejected (enum labels are unaffected: they are compared with the enumeration); not repaired: normalising the label also changes how enum/bit labels containing hyphens are matched',
      'module D-MIB: `d-root OBJECT IDENTIFIER ::= { enterprises 6 }` and `dObj OBJECT-TYPE SYNTAX OBJECT IDENTIFIER ... DEFVAL { d-root }` -> PySmiSemanticError unknown type ... for defval d-root'),
-    ('C06', 'C06.R1', 'IntermediateCodeGen.genDefVal/_importMap<-defval',
+    ('C06', 'C06.R1', 'IntermediateCodeGen.genDefVal/_importMap<-raw-label',
      'F25: a DEFVAL label is looked up as written (with hyphens) in tables keyed by normalised names, so a valid `DEFVAL { d-root }` on an OBJECT IDENTIFIER object is rejected (enum labels are unaffected: they are compared with the enumeration); not repaired: normalising the label also changes how enum/bit labels containing hyphens are matched',
      'module D-MIB: `d-root OBJECT IDENTIFIER ::= { enterprises 6 }` and `dObj OBJECT-TYPE SYNTAX OBJECT IDENTIFIER ... DEFVAL { d-root }` -> PySmiSemanticError unknown type ... for defval d-root'),
-    ('C06', 'C06.R1', 'SymtableCodeGen.genDefVal/_out<-defval',
+    ('C06', 'C06.R1', 'SymtableCodeGen.genDefVal/_out<-raw-label',
      'F25: a DEFVAL label is looked up as written (with hyphens) in tables keyed by normalised names, so a valid `DEFVAL { d-root }` on an OBJECT IDENTIFIER object is rejected (enum labels are unaffected: they are compared with the enumeration); not repaired: normalising the label also changes how enum/bit labels containing hyphens are matched',
      'module D-MIB: `d-root OBJECT IDENTIFIER ::= { enterprises 6 }` and `dObj OBJECT-TYPE SYNTAX OBJECT IDENTIFIER ... DEFVAL { d-root }` -> PySmiSemanticError unknown type ... for defval d-root'),
-    ('C06', 'C06.R1', 'SymtableCodeGen.genDefVal/_importMap<-defval',
+    ('C06', 'C06.R1', 'SymtableCodeGen.genDefVal/_importMap<-raw-label',
      'F25: a DEFVAL label is looked up as written (with hyphens) in tables keyed by normalised names, so a valid `DEFVAL { d-root }` on an OBJECT IDENTIFIER object is rejected (enum labels are unaffected: they are compared with the enumeration); not repaired: normalising the label also changes how enum/bit labels containing hyphens are matched',
      'module D-MIB: `d-root OBJECT IDENTIFIER ::= { enterprises 6 }` and `dObj OBJECT-TYPE SYNTAX OBJECT IDENTIFIER ... DEFVAL { d-root }` -> PySmiSemanticError unknown type ... for defval d-root'),
     ('C04', 'C04.R5', 'import-strings-normalised',
